@@ -81,7 +81,7 @@ def run_hist(spec, res):
                 res['obligations'] += 1
                 res['refuted'] += 1
                 if eng.check3() == 'sat':
-                    res['cex'].append(case_sock(eng.solver.model(), data, sock, [], f"read raised {type(path.value).__name__}: {str(path.value)[:60]}"))
+                    res['cex'].append(case_sock(eng.model(), data, sock, [], f"read raised {type(path.value).__name__}: {str(path.value)[:60]}"))
             else:
                 res['inconclusive'].append(f"{spec}: {path.kind} {str(path.value)[:80]}")
             continue
@@ -109,13 +109,13 @@ def run_hist(spec, res):
         if bad:
             res['refuted'] += 1
             if eng.check3() == 'sat':
-                m = eng.solver.model()
+                m = eng.model()
                 calls = [m.eval(k.t, model_completion=True).as_long() for (k, *_r) in path.value]
                 res['cex'].append(case_sock(m, data, sock, calls, bad) | {'bufsize': bs})
         else:
             res['discharged'] += 1
             if len(res['witnesses']) < 2 and eng.check3() == 'sat' and path.value:
-                m = eng.solver.model()
+                m = eng.model()
                 calls = [m.eval(k.t, model_completion=True).as_long() for (k, *_r) in path.value]
                 res['witnesses'].append(case_sock(m, data, sock, calls, "witness") | {'bufsize': bs})
         res.count('histories')
@@ -170,7 +170,7 @@ def run_step(spec, res):
         if bad:
             res['refuted'] += 1
             if eng.check3() == 'sat':
-                m = eng.solver.model()
+                m = eng.model()
                 # replayable history: first deliver the B buffer bytes in one recv and read 0 bytes (buffer now holds them), then the step
                 data = rdrdrv.model_bytes(m, H['buf']) + rdrdrv.model_bytes(m, H['src'])
                 log = ([['d', B]] if B else [['t']]) + list(sock.log)
@@ -229,7 +229,7 @@ def run_line(spec, res):
         if bad:
             res['refuted'] += 1
             if eng.check3() == 'sat':
-                res['cex'].append(case_sock(eng.solver.model(), data, H['sock'], ['line'], bad))
+                res['cex'].append(case_sock(eng.model(), data, H['sock'], ['line'], bad))
         else:
             res['discharged'] += 1
         res.count('lines')
